@@ -191,7 +191,9 @@ class Scope(list):
             if var is False:
                 raise SyntaxError('Unknown escaped variable %s' % name)
             if isinstance(var.value[0], string_types):
-                var.value[0] = utility.destring(var.value[0])
+                # unquoted where it is interpolated; the variable itself
+                # keeps its quotes for every other use
+                return [utility.destring(var.value[0])] + list(var.value[1:])
         else:
             var = self.variables(name)
             if var is False:
